@@ -1272,12 +1272,8 @@ Proof.
   - intros c Hc. apply (grid_cell_ok t fields ix c Hix Hn Hc). apply Hgc. exact Hc.
 Qed.
 
-(* NOT PROVED (left open; the theorems above cover cumulative triangles whose cells all carry exactly
-   the requested fields as scalar numbers):
-   - incremental triangles (m_incremental = true: prev_evaluation_date rebuilt from the previous lag);
-   - cells holding one-element sample arrays (VArr _ [x] is written as x and comes back as VNum);
-   - cells that carry only a subset of `fields`, or extra fields (skipped by `if field in fields`);
-   - the to_array direction (grouping cells into period rows), i.e.
-       forall t f r m, array hypotheses -> exists af, to_array t f = Ok af /\
-                       Permutation (from_array af f r m) (floatify t);
-   - ms_rich_inverse_step (rich_matrix_to_triangle) is not modelled in Model/MatrixIx.v beyond the flag. *)
+(* Continued in Proofs/MatrixIxP2.v (cells with a subset of the fields, incremental triangles) and
+   Proofs/MatrixIxArr.v (the to_array direction and the full array-frame round trip).
+   NOT PROVED anywhere: cells holding one-element sample arrays (VArr _ [x] is written as x and comes
+   back as VNum), cells with fields outside `fields` (dropped), ms_rich_inverse_step
+   (rich_matrix_to_triangle is not modelled in Model/MatrixIx.v beyond the flag). *)
